@@ -135,7 +135,8 @@ fn check(c: &Case, ctx: &Ctx, route: Route) -> Outcome {
         }
         if c.t.gzip {
             let fz = dir.join(format!("b{i}.fa.gz"));
-            cli::gzip(&fb, &fz);
+            // half of the compressed files consist of two or three gzip members (cut anywhere, also inside a record)
+            match (i + c.k / 2) % 4 { 0 => cli::gzip_members(&fb, &fz, 2), 1 => cli::gzip_members(&fb, &fz, 3), _ => cli::gzip(&fb, &fz) }
             bytes_differ = true;
             files_b_unperm.push((names[i].clone(), cli::p(&fz)));
         } else {
